@@ -23,8 +23,10 @@ func poolSites() (string, error) {
 		where, fn, poolvar string
 		returns            []bool // true = alias
 		deferredPut        bool
+		gets, puts         int // Get and Put call expressions in the function body (closures included)
 	}
 	var sites []site
+	var outside []string
 	err := filepath.WalkDir(repo, func(p string, d fs.DirEntry, err error) error {
 		if err != nil {
 			return err
@@ -62,10 +64,35 @@ func poolSites() (string, error) {
 				return true
 			})
 			if poolvar == "" {
+				// Get/Put calls outside the inventoried functions (the BufferPool wrapper itself is expected here)
+				rel, _ := filepath.Rel(repo, p)
+				ast.Inspect(fd.Body, func(n ast.Node) bool {
+					if ce, ok := n.(*ast.CallExpr); ok {
+						if isPoolPut(ce) {
+							outside = append(outside, rel+"|"+fd.Name.Name+"|Put")
+						}
+						if isPoolGet(ce) {
+							outside = append(outside, rel+"|"+fd.Name.Name+"|Get")
+						}
+					}
+					return true
+				})
 				continue
 			}
 			rel, _ := filepath.Rel(repo, p)
 			s := site{where: fmt.Sprintf("%s:%d", rel, fset.Position(fd.Pos()).Line), fn: fd.Name.Name, poolvar: poolvar}
+			ast.Inspect(fd.Body, func(n ast.Node) bool {
+				switch x := n.(type) {
+				case *ast.CallExpr:
+					if isPoolPut(x) {
+						s.puts++
+					}
+					if isPoolGet(x) {
+						s.gets++
+					}
+				}
+				return true
+			})
 			ast.Inspect(fd.Body, func(n ast.Node) bool {
 				switch x := n.(type) {
 				case *ast.FuncLit:
@@ -166,6 +193,17 @@ func poolSites() (string, error) {
 		fmt.Fprintf(&b, "  (%s, %s, [%s], %s)%s\n", qs(s.where), qs(s.fn), strings.Join(rs, "; "), cbool(s.deferredPut), sep)
 	}
 	b.WriteString("].\n\n")
+	b.WriteString("(* (file:line, number of Get call expressions, number of Put call expressions) of the same functions *)\nDefinition pool_balance : list (string * nat * nat) := [\n")
+	for i, s := range sites {
+		sep := ";"
+		if i == len(sites)-1 {
+			sep = ""
+		}
+		fmt.Fprintf(&b, "  (%s, %d, %d)%s\n", qs(s.where), s.gets, s.puts, sep)
+	}
+	b.WriteString("].\n\n")
+	sort.Strings(outside)
+	fmt.Fprintf(&b, "(* pool Get/Put call expressions in functions that take no buffer themselves: file|function|call *)\nDefinition pool_calls_elsewhere : list string := %s.\n\n", qlist(outside))
 	fmt.Fprintf(&b, "Definition loader_fields : list string := %s.\nDefinition loader_reset_fields : list string := %s.\n", qlist(fields), qlist(resets))
 	return b.String(), nil
 }
